@@ -554,12 +554,45 @@ class Models(object):
         rstr = isinstance(r, str) or (isinstance(r, SV) and E.decide(sym.is_str(r)))
         if lstr and rstr:
             a, b = sym.sstr(l), sym.sstr(r)
+            # structural decision first: strip the common prefix of the two concatenations and compare the first differing literal char
+            x, y, neg = {ast.Lt: (a, b, False), ast.LtE: (b, a, True), ast.Gt: (b, a, False), ast.GtE: (a, b, True)}[type(op)]
+            d = self.struct_str_lt(x, y)
+            if d is not None:
+                return z3.BoolVal(d != neg)
             return {ast.Lt: a < b, ast.LtE: a <= b, ast.Gt: b < a, ast.GtE: b <= a}[type(op)]
         if (lint or lstr) and (rint or rstr):
             raise PyRaise(ExcVal(TypeError, ("'<' not supported",)))
         if isinstance(l, SV) and E.decide(sym.is_float(l)) or isinstance(r, SV) and E.decide(sym.is_float(r)):
             raise Unsupported("float ordering")
         raise PyRaise(ExcVal(TypeError, ("'<' not supported",)))
+
+    def struct_str_lt(self, a, b):
+        """a < b (code-point lexicographic) decided on the concatenation structure alone; None when it is not decided that way"""
+        pa, pb = list(self.pieces(a)), list(self.pieces(b))
+        while pa and pb:
+            x, y = pa[0], pb[0]
+            if isinstance(x, str) and isinstance(y, str):
+                n = 0
+                while n < len(x) and n < len(y) and x[n] == y[n]:
+                    n += 1
+                if n < len(x) and n < len(y):
+                    return x[n] < y[n]
+                pa[0], pb[0] = x[n:], y[n:]
+                if pa[0] == "":
+                    pa.pop(0)
+                if pb[0] == "":
+                    pb.pop(0)
+                continue
+            if not isinstance(x, str) and not isinstance(y, str) and x.eq(y):
+                pa.pop(0)
+                pb.pop(0)
+                continue
+            return None
+        if not pb:
+            return False            # nothing is smaller than the empty remainder
+        if not pa:
+            return True if any(isinstance(y, str) and y for y in pb) else None
+        return None
 
     def lex(self, op, l, r):
         """lexicographic comparison of sequences of int-like / str values"""
@@ -1514,7 +1547,7 @@ class Models(object):
         if len(items) <= 1:
             return items
         # symbolic keys: insertion sort with forking comparisons (small lists only)
-        if len(items) > 4:
+        if sum(1 for k in keys if isinstance(k, SV)) > 4 or len(items) > 16:
             raise Unsupported("sorting more than 4 symbolic keys (needs the sorted-bag abstraction)")
         out = []
         outk = []
@@ -1854,6 +1887,10 @@ class Models(object):
             if E.decide(sym.is_int(v)):
                 return SV(Val.VFloat(z3.ToReal(sym.sint(v))))
             if E.decide(sym.is_str(v)):
+                st_ = z3.simplify(sym.sstr(v))
+                hit = sym.INT_STR.get(st_.get_id())
+                if hit is not None and hit[0].eq(st_) and E.decide(as_bool(z3.And(hit[1] >= -2 ** 53, hit[1] <= 2 ** 53))):
+                    return SV(Val.VFloat(z3.ToReal(hit[1])))     # A5: float(str(i)) is exact for |i| <= 2^53
                 E.havoc("float() of a symbolic string")
                 if E.decide(E.fresh("float_ok", z3.BoolSort())):
                     return SV(Val.VFloat(sym.str_float(sym.sstr(v))))
